@@ -68,8 +68,12 @@ class World:
         self.host.probe_faults = {int(pf): 'raise'} if pf else {}
         self.model.probe_faults = {int(pf): 'raise'} if pf else {}
         names = self.names if names is None else names
-        rout = real_eval(self.parser, src, names, budget=budget, rec=rec)
-        mout = self.model.run(op['prog'], names=mnames)
+        ast = None
+        if op.get('ast_names'):
+            # helper expressions handed over as parsed trees (parsed by another parser: what is judged is this call)
+            ast = {k: boot.fresh_parser().parse(lang.render(t, 0)) for k, t in op['ast_names'].items()}
+        rout = real_eval(self.parser, src, names, budget=budget, rec=rec, ast_names=ast)
+        mout = self.model.run(op['prog'], names=mnames, ast_names=op.get('ast_names'))
         judged = compare_with_model(ctx, mout, rout, self.model.host if mnames is None else mnames, names, 'step %d %r' % (step, src[:200]),
                                     check_names=check_names)
         if self.host.log != self.model.log and judged:
